@@ -44,6 +44,7 @@ def validate_shards(
     extra_env: dict | None = None,
     dfs_queue: bool = False,
     invariants: list[str] | None = None,
+    unconsumed_clause: str | None = None,
 ) -> tuple[list[dict], int, dict]:
     """Validate each shard with its own TLC (workers=1 each, JVMs in parallel).
 
@@ -88,11 +89,23 @@ def validate_shards(
             stats["wall_s"] = max(stats["wall_s"], res.wall_s)
             n_lines = sum(1 for _ in open(p))
             ids_done = set()
+            progress: dict = {}
             for v in read_emitted(vf):
                 if v.get("done"):
                     ids_done.add(v["tid"])
+                elif "at" in v:
+                    progress[v["tid"]] = max(progress.get(v["tid"], 0), v["at"])
                 else:
                     fails.append(v)
+            if len(ids_done) != n_lines and unconsumed_clause:
+                # existential validation: no behaviour of the specification explains the trace
+                for line in open(p):
+                    tid_ = json.loads(line)["id"]
+                    if tid_ not in ids_done:
+                        at = progress.get(tid_, 1)
+                        fails.append(dict(tid=tid_, l=at, clause=unconsumed_clause,
+                                          detail=["longest explained prefix ends before line", at]))
+                        ids_done.add(tid_)
             if len(ids_done) != n_lines:
                 raise MachineryError(
                     f"trace validation consumed {len(ids_done)} of {n_lines} traces in {p} "
